@@ -25,7 +25,8 @@ struct BlockCase {
     Csr<double> A;             // scalar matrix, n = nb*b, rows sorted by column, diagonal present
     int kind = 0;              // 0: M (x) I_b, 1: M (x) Bm with SPD Bm, 2: block structured M-matrix with random incomplete blocks,
                                // 3: as 2 but with entries of both signs (SPD by strict dominance, but not an M-matrix: not a model problem for AMG)
-    bool model() const { return kind != 3; }
+    // model problems for the convergence clause: M-matrix like values on bounded-degree graphs (the hub of a star has degree n-1)
+    bool model() const { return kind != 3 && family != "star"; }
     std::string family;
     long blocks = 0, incomplete = 0; // structurally present blocks / of those with a missing scalar entry
     long offdiag_incomplete = 0;
